@@ -108,6 +108,7 @@ inductive Ev
   | apiRet (n inst : Nat) (r : ApiRes)
   | status (inst state : Nat) (isLeader : Bool) (lid tok rev : Nat) (isLeader2 : Bool)
   | observe (inst : Nat)     -- the library reports the duration of a term (Metrics.ObserveLeaderDuration): that term is being ended
+  | slowSink          -- header: the configured log sink takes its time over every record it may (no timing clause applies to this trace)
   | wleft (n : Nat)   -- after the tear-down: watchers the library was given and never stopped
   | promGauge (inst : Nat) (v : Int)   -- when the scenario ends: election_is_leader of the instance in the real Prometheus registry (-1: no such series)
   | promTrans (inst n : Nat)           -- ... and the sum of its election_transitions_total series
